@@ -486,7 +486,7 @@ class Executor:
         if isinstance(base, Val):
             ty = strip_opt(base.ty)
             if ty[0] in ("dict", "seq", "set", "str", "any", "exc"):
-                if ty[0] == "any":
+                if ty[0] in ("any", "exc"):
                     decl = self.model.attr_any(attr)
                     if decl is not None:
                         yield s, self.read_attr(base, attr, decl, s)
